@@ -145,7 +145,11 @@ impl Parse for EntraitOpt {
             let ident_string = ident.to_string();
 
             match ident_string.as_str() {
-                "Send" => Ok(MaybeSend(SpanOpt(FutureSend(false), span))),
+                // (like every option it may be written with its value: `?Send = true`)
+                "Send" => {
+                    let maybe_send = parse_eq_bool(input, true, span)?;
+                    Ok(MaybeSend(SpanOpt(FutureSend(!maybe_send.0), span)))
+                }
                 _ => Err(syn::Error::new(
                     span,
                     format!("Unkonwn entrait option \"{ident_string}\""),
